@@ -28,7 +28,8 @@ EXHAUSTIVE = {'quick': True, 'thorough': True}
 TRUSTED = ['numpy >= 2 casts an S-string to an integer/float dtype by calling Python int()/float() on it and storing the '
            'result with a range check (OverflowError) - modelled so, exercised by this correspondence',
            'Python float() (oracle table computed by the harness; the model treats the parsed value as an opaque token)',
-           'Python int() on bytes is DEFINED in Gallina (py_int) and compared with CPython on ~7400 strings per run',
+           'Python int() on bytes is DEFINED in Gallina (py_int, including the 4300-digit limit of CPython >= 3.11) and '
+           'compared with CPython on ~7400 strings per run (21 of them on both sides of the digit limit)',
            'datetime(...).timestamp() for aware UTC datetimes = exact microsecond count / 10^6 correctly rounded '
            '(the harness recovers the integer microseconds from the stored float64 and checks the round trip)',
            'datetime.strptime(s, "%Y-%m-%d") modelled from the regular expressions of CPython 3.12 on every byte string: '
@@ -748,6 +749,15 @@ def _gen_long(tier, rng, budget):
         yield {'k': 'fixed', 'n': w, 'chunks': [[txt[:w - 1], txt[:w]], [txt[:w + 1], txt, '']], 'lay': LAYS[i % 3]}
         yield {'k': 'date', 'chunks': [[' ' * (w - 10) + '2020-06-15', ''], ['1970-01-02' + ' ' * w]], 'lay': LAYS[i % 3]}
         yield {'k': 'datetime', 'chunks': [[' ' * (w - 19) + '2020-06-15 19:45:39', ''], ['2020-06-15 19:45:39.05 UTC' + '\t' * w]], 'lay': LAYS[i % 3]}
+    # CPython's int() refuses numerals of more than 4300 digit characters (leading zeros count; underscores, sign and
+    # blanks do not): modelled in py_int, exercised on both sides of the limit
+    for w in ((4299, 4300, 4301, 4302) if big else (4300, 4301)):
+        forms = [('zero-padded', ('0' * w + '42')[-w:]), ('lead-blank', ' ' * 5 + ('0' * w + '7')[-w:])]
+        if big:
+            forms += [('nines', '9' * w), ('underscores', '0_' * (w - 1) + '7'), ('neg-zero-padded', '-' + '0' * (w - 1) + '5')]
+        for name, c in forms:
+            for mode in (0, 1, 2):
+                yield {'k': 'int', 'dtype': 'int32', 'mode': mode, 'inv': 9, 'chunks': [['1', c]], 'lay': LAYS[mode], 'form': name}
     # structured random: columns that mix short and very long numerals, several chunks
     for _ in range((600 if big else 120) + budget):
         isint = rng.random() < 0.5
@@ -788,6 +798,9 @@ def gen(tier, rng):
         yield {'k': 'pyint', 't': t}
     for _ in range(3000 if big else 600):
         yield {'k': 'pyint', 't': ''.join(rng.choice(alpha + ['5', '7']) for _ in range(rng.randint(5, 9)))}
+    for n in (4299, 4300, 4301):         # sys.get_int_max_str_digits() = 4300
+        for t in ['1' * n, '0' * (n - 1) + '7', ' -' + '0' * (n - 1) + '7 ', '1_' * (n - 1) + '1', '+' + '9' * n, '0' * n + 'x', '_' + '1' * n]:
+            yield {'k': 'pyint', 't': t}
 
     # ---- categorical / leaky: exhaustive
     maxlen = 2
@@ -963,8 +976,10 @@ def gen(tier, rng):
                                                 for _ in range(rng.randint(0, 40))]]}
         # SC06: non-ASCII tables and long numerals end to end
         for kind in ('cat', 'leaky'):
-            for tab in ([['', 0], [_u('男'), 1], [_u('女'), 2], ['NA', 3], ['other', 5]], [[_u('aé'), 1], ['bb', 2], [_u('😀'), 3], ['cccc', 4]]):
-                pool = [k for k, _ in tab] + ['x', _u('é'), 'othe']
+            for r in (3, 5):
+                keys = rng.sample([_u(x) for x in _ustrings(UCH, 2)], r)
+                tab = [[k, j + 1] for j, k in enumerate(keys)]
+                pool = keys + [_u(x) for x in UCH] + ['aa', 'x']
                 yield {'k': kind, 'cats': tab + [['long_key__', 9]], 'chunks': [[rng.choice(pool) for _ in range(rng.randint(5, 30))]]}
         for w in (40, 300):
             yield {'k': 'int', 'dtype': 'int32', 'mode': 1, 'inv': 0, 'chunks': [['1', '', ('0' * w + '42')[-w:], '7']]}
